@@ -9,3 +9,5 @@ import Tcell.Props.C16
 import Tcell.Props.C07
 import Tcell.Props.C15
 import Tcell.Props.C14
+import Tcell.Props.C19
+import Tcell.Props.C19Page
